@@ -350,6 +350,16 @@ func (r *runner) do(kind string, c Case, withCoq bool) {
 		}
 	}
 
+	// CreateVP failing inside the BBS+ derivation (JSON-LD framing of the reveal document) is a holder-side failure the
+	// member-level model does not follow: the property says nothing there, the case is kept for the statistics only
+	if o.Create == "other" {
+		for _, cr := range c.Creds {
+			if hasBBS(cr) {
+				withCoq = false
+			}
+		}
+	}
+
 	if withCoq && r.coqN < r.maxCq {
 		rec.Coq = coqCase(c, o)
 		r.coqN++
